@@ -1358,7 +1358,7 @@ func TestC34(t *testing.T) {
 	r.Assume("SetBodyStreamWriter pipes are not instrumentable for Close counts; instead the StreamWriter function must have returned after the write/release (generous 30 s watchdog, inconclusive if it fires)")
 	r.Assume("the independent decoder and net/http are correct readers of RFC 9112 framing")
 
-	nCfg := r.N(5_000, 150_000)
+	nCfg := r.N(5_000, 100_000)
 	var swHung atomic.Int64
 	mon.Parallel(nCfg, 0, func(i int) {
 		if !r.Want(i) || swHung.Load() > 3 {
